@@ -7,13 +7,13 @@ CHECKS = {
  "C12": dict(
   level="model_checking", design="6/C12", engine="sched",
   technique="stateless schedule exploration: preemption-bounded baton scheduler over real threads racing on the real lazycompile wrapper (stub + real Numba compilation), controlled dask scheduler enumerating task orders with bounded deviations, virtual prange (AST transform, one cooperative thread per row); exhaustive configuration product (chunkings x layouts x schedulers x thread counts)",
-  text="All interleavings at line granularity / preemption-bounded at bytecode granularity for 2-3 threads; dask task orders with <=1 (2) deviations for 17 accessor operations; all 32 (y,x) chunkings x 3 (6) layouts x 2 (7) schedulers; all 31 time chunkings (raise or equal eager); pixel permutations; thread counts 1..16; prange body interleavings with <=2 (3) preemptions. Oracle: eager / sequential result, bit-exact.",
+  text="All interleavings at line granularity / preemption-bounded at bytecode granularity for 2-3 threads; dask task orders with <=1 (2) deviations for 17 accessor operations; all 32 (y,x) chunkings x 3 (6) layouts x 2 (7) schedulers; all 31 time chunkings (raise or equal eager); pixel permutations; thread counts 1..16; prange body interleavings with <=2 (3) preemptions. Oracle: eager / sequential result, bit-exact. The thread count a kernel asks for (numba.get_num_threads) is enumerated 1..6 on 1..7 rows in the virtualised source.",
   note="Native-code interleavings (GIL-free gufunc loops, Numba threading layer) are not controllable from Python; configurations are enumerated there. The free-running lazy pass is sampling and reported as a supplement."),
  "C13": dict(
   level="translation_validation", design="6/C13", engine="sse-product",
   technique="bounded exhaustive differential execution of every discovered @njit/@guvectorize program (35) compiled vs its own source under CPython (numba types -> NumPy dtypes, callees compiled) on exhaustive word sets per dtype; SciPy special functions in nopython code vs scipy.special on log grids",
-  text="35 programs, ~40k (400k) input cases, 120k special-function evaluations; tolerances as stated in the property; selection ties decided by the C04/C05 reference.",
-  note="Inputs on which the interpreter overflows / raises are out-of-domain and counted; legacy ops/whit.py is excluded (not imported by the package)."),
+  text="35 programs, ~40k (400k) input cases, 120k special-function evaluations; tolerances as stated in the property; selection ties decided by the C04/C05 reference. Every integer-typed program also over the whole range of its input dtypes (int16 / uint8 / uint16 / int32 / int64 extremes).",
+  note="An overflow under the interpreter is NumPy's warn-and-wrap value and is compared; inputs on which the interpreter raises a Python-level error compiled code cannot raise (math domain errors) are out-of-domain and counted; legacy ops/whit.py is excluded (not imported by the package)."),
  "C14": dict(
   level="exploration", design="6/C14", engine="sse-product",
   technique="bounded exhaustive enumeration of boundary-sized in-contract inputs per kernel, executed in child processes compiled with NUMBA_BOUNDSCHECK=1 (IndexError on any out-of-bounds index); two sentinel-filled caller-owned output buffers per gufunc call expose unwritten elements",
@@ -22,7 +22,7 @@ CHECKS = {
  "C07": dict(
   level="exploration", design="6/C07", engine="sse-product",
   technique="bounded exhaustive enumeration of words over {ND,0,1,2,7,30} x all calibration windows x 4 kernel entry points + accessor, and a deterministic quantile-grid family, against an independent SciPy evaluation of the SPI definition with an interval for the fitted shape",
-  text="All words of length 3..6/7 with every window of >=2 steps, int16/float32/float64 inputs; shapes 0.05..500, scales 0.1..1e4, n<=400 with zeros and ties. Interval oracle: every integer between the rounded ends for alpha*(1+-1e-9) (float32: single-precision log bound).",
+  text="All words of length 3..6/7 with every window of >=2 steps, int16/float32/float64 inputs; shapes 0.05..500, scales 0.1..1e4, n<=400 with zeros and ties. Interval oracle: every integer between the rounded ends for alpha*(1+-1e-9) (float32: single-precision log bound). Accessor windows written with dates on the steps and strictly between steps; attribute histories of nodata on one object (depth 3).",
   note="Trusts scipy.special (digamma, gammainc, ndtri) and scipy.optimize.brentq as the reference; |SPI|>7000 left to C08."),
  "C08": dict(
   level="exploration", design="6/C08", engine="sse-product",
@@ -32,12 +32,12 @@ CHECKS = {
  "C09": dict(
   level="exploration", design="6/C09", engine="sse-product",
   technique="bounded exhaustive enumeration of time axes (subsets of a 9-position lattice) x all begin/end dates on/between/before/after steps, and of set partitions x label spellings for groups; index reference + differential grouped vs per-group ungrouped path",
-  text="Window membership, attrs, ValueError for every invalid window and only those, grouped == per-group ungrouped, spelling invariance, single group == ungrouped, to_linspace / get_calibration_indices directly, 36 dekad groups; axes stamped at 10:30 with begin/end at three times of day; far-away sentinel dates (years 1..9999); call sequences in one process over 21 axes with equal extent.",
+  text="Window membership, attrs, ValueError for every invalid window and only those, grouped == per-group ungrouped, spelling invariance, single group == ungrouped, to_linspace / get_calibration_indices directly, 36 dekad groups; axes stamped at 10:30 with begin/end at three times of day; far-away sentinel dates (years 1..9999); call sequences in one process over 21 axes with equal extent. Influence oracle at the kernels: an observation outside the calibration window never influences the indices of other positions (every pixel x window x position, ungrouped and two groupings).",
   note="Axes of 5 steps (quick) / 3..6 steps (thorough) for windows; 6..7 (9) steps for groups."),
  "C10": dict(
   level="model_checking", design="6/C10", engine="sse-trie",
   technique="explicit-state exploration of the trie of all weak orderings (rank patterns) of 2..7/8 points, exact reference (integer S, rational variance and Sen slope) on every state, S-increment relation on every edge, symmetry relations; 4 kernel entry points + accessor",
-  text="All 52608 (598443) rank patterns; tau, p, slope, flag compared with exact values (float32 1 ulp); x->2x+3, x^3, -x, reversal; all-nodata pixels (also nodata=0); all words over three values n=8..9 (11); patterns spread over the whole int16 range; decision-boundary family: for every n<=80 (200) and 8 tie structures the smallest significant and largest non-significant score.",
+  text="All 52608 (598443) rank patterns; tau, p, slope, flag compared with exact values (float32 1 ulp); x->2x+3, x^3, -x, reversal; all-nodata pixels (also nodata=0); all words over three values n=8..9 (11); patterns spread over the whole int16 range; decision-boundary family: for every n<=80 (200) and 8 tie structures the smallest significant and largest non-significant score. Attribute histories of nodata on one long-lived object (depth 3) against a fresh object.",
   note="Threshold guard |p-0.05|>1e-9 never triggers in scope (min 1.3e-3)."),
  "C11": dict(
   level="model_checking", design="6/C11", engine="calendar",
@@ -47,17 +47,17 @@ CHECKS = {
  "C15": dict(
   level="model_checking", design="6/C15", engine="sse-trie",
   technique="explicit-state exploration of the input trie over {ND,a,b,c} (length 3..9/10) with a streaming exact-integer reference (ten running sums), int/nodata vs float/NaN, (y,x,t) vs (t,y,x), affine invariance, accessor numpy/dask; 900-step outage family",
-  text="All 349k (1.4M) words; value, range [-1,1], encodings, layouts, affine maps; large-offset alphabet (30000+{0,1,5}); nearly flat plateaus n=30..900; nodata=0 attribute.",
-  note="Tolerance 2e-6 absolute (float32 outputs)."),
+  text="All 349k (1.4M) words; value, range [-1,1], encodings, layouts, affine maps; large-offset alphabet (30000+{0,1,5}); nearly flat plateaus n=30..900; nodata=0 attribute. Words over decimal fractions (float64 / float32) and records flat after their first sample up to 900 steps; attribute histories of nodata on one object, both layouts.",
+  note="Tolerance 2e-6 absolute (float32 outputs). Float data with decimal fractions: 2e-5 (rounding residue of the single-pass sums), finite and within [-1,1] required."),
  "C16": dict(
   level="exploration", design="6/C16", engine="sse-product",
   technique="bounded exhaustive enumeration of zone x value assignments for rasters of 1..5/6 pixels x num_zones x dtype, boundary zone sizes 2^24-1, 2^24, 2^24+2, 25M, 1000 zones, all 720 pixel permutations, accessor numpy/dask",
-  text="Exact mean (2 ulp of output dtype) and exact count, NaN/0 for empty zones, zone-nodata pixels excluded, rearrangement invariance; zone rasters of every integer dtype with fill values outside int16.",
+  text="Exact mean (2 ulp of output dtype) and exact count, NaN/0 for empty zones, zone-nodata pixels excluded, rearrangement invariance; zone rasters of every integer dtype with fill values outside int16. Attribute histories of nodata on the value cube and on the zone raster (depth 3).",
   note="Large zones use integer-valued pixels (exact float64 sums)."),
  "C18": dict(
   level="model_checking", design="6/C18", engine="sse-trie",
   technique="explicit-state exploration of the binary input trie (length 1..16/18) with a run-length automaton and edge relations; long-run family beyond 255 / 65535; non-binary alphabet; croo under all permutations of the stored time order",
-  text="All 131070 binary words, runs up to 1000 (70000), all 720 stored orders for words up to length 6, time axes before / across 1970, one object relabelled in place through all 120 orders.",
+  text="All 131070 binary words, runs up to 1000 (70000), all 720 stored orders for words up to length 6, time axes before / across 1970, one object relabelled in place through all 120 orders. croo on cubes of 257..1000 steps holding every combination of current run length x isolated 1 at 64..768 steps back, three storage orders, numpy and dask.",
   note="croo is only claimed for binary series (the property's quantifier)."),
  "C19": dict(
   level="model_checking", design="6/C19", engine="sse-trie",
@@ -102,7 +102,7 @@ CHECKS = {
  "C17": dict(
   level="model_checking", design="6/C17", engine="sse-trie",
   technique="explicit-state exploration of the input trie (every word over {ND,4 letters} to length 7/8, every window) with a sliding-window reference automaton stepped on every edge, run against the compiled kernel and the accessor",
-  text="Every word over a 5-symbol alphabet up to the length bound, every window size, three nodata renderings and four dtypes is executed on the real kernel and compared with a reference automaton; the causality edge relation is checked on every trie transition; mean_grp over every surjective labeling. Complete inside the bound; longer series only through a deterministic family.",
+  text="Every word over a 5-symbol alphabet up to the length bound, every window size, three nodata renderings and four dtypes is executed on the real kernel and compared with a reference automaton; the causality edge relation is checked on every trie transition; mean_grp over every surjective labeling. Complete inside the bound; longer series only through a deterministic family. 1000-step records at levels 26000 / 100000 (record total beyond 2^24, every window sum exact); attribute histories of nodata on one object for rolling.sum and mean_grp.",
   note="Trusts NumPy integer arithmetic for the reference sums; bound: length <= 7 (quick) / 8 (thorough), 4 letters + nodata."),
 }
 
